@@ -88,6 +88,12 @@ finding(
     {"C01": [I([["a", {"typ": "int", "doc": " ".join(["alpha"] * 10)}], ["a0", {"typ": "str", "doc": " ".join(["alpha"] * 12), "default": "AA-AA"}]], doc="", cells=[["rest", True, True, True, True], ["rest", True, False, False, True], ["numpydoc", True, False, True, True]])]},
 )
 
+finding(
+    "P62", ["C13"], "fixed", "sync_properties of a class attribute into a same-named function parameter overwrites the default of ANOTHER parameter (defaults indexed from the front): A.a00 -> def a(a00, a, a0, b=-2) sets b=1 (found by the thorough tier)", "98d1416",
+    {"C13": [{"isrc": "class A(object):\n    a00: int = 1\n", "osrc": "def a(a00, a, a0, b=-2):\n    return 1\n", "ip": ["A.a00", "attr", ["a00", "int", "1"], {}], "op": ["a.a00", "arg", ["a00", None, None], {"idx": 0, "names": ["a00", "a", "a0", "b"], "hasdef": True, "first": None}], "wrap": None, "eval": False},
+             {"isrc": "class A(object):\n    a090: int = 7\n", "osrc": "def a(d1m, lk=1, u=None, a090=None, a=None):\n    return 1\n", "ip": ["A.a090", "attr", ["a090", "int", "7"], {}], "op": ["a.a090", "arg", ["a090", None, "None"], {"idx": 3, "names": ["d1m", "lk", "u", "a090", "a"], "hasdef": True, "first": None}], "wrap": None, "eval": False}]},
+)
+
 # ------------------------------------------------------------------ open
 finding("P9", ["C12"], "open", "sync leaves function and argparse targets that differ from the truth untouched ('unchanged'); Class.method targets get a new top-level def appended on every run; (repair would break 4 pinned test_conformance tests)")
 finding("P12", ["C01", "C08"], "open", "string default '' is emitted as 'Defaults to' and lost; string defaults containing '.' are truncated")
